@@ -115,7 +115,8 @@ class C19(Plugin):
 
         def one(us):
             try:
-                D = discover(list(us), delimiters=list(delims) or None, cutoff=cutoff.v if cutoff is not None else None, metaprefix=meta, converter=conv)
+                D = discover(list(us), **qprops.flags(delimiters=list(delims) or None, cutoff=cutoff.v if cutoff is not None else None,
+                                                      metaprefix=meta, converter=conv))
             except ValueError as e:
                 return [1] if type(e).__module__.startswith("curies") else [2]
             except Exception:
